@@ -10,6 +10,8 @@ from simkit import terms as T
 
 ID = "C14"
 LEVEL = "exploration"
+TECHNIQUE = ("deterministic simulation (fault-free pipeline): bindings x statements x small tables, option on/off differential, both integrations reading each other's streams, re-serialization")
+LEVEL_NOTE = ("sampled inputs/configurations; rdflib bindings avoid rdflib's own defaults")
 RUNS = {"quick": 24000, "thorough": 500000}
 RULE = ("seeded runs: bindings (empty prefix, IRIs with/without '/' '#', non-ASCII) x statement sequence x both "
         "integrations x TRIPLES/QUADS/GRAPHS x small tables (declarations cause evictions); written with the option "
